@@ -498,6 +498,26 @@ func c08Semantic(s *source, e *emitter) {
 	calls("rest/httpx/requests.go", "ParsePath", "httpParsePathCalls")
 	calls("rest/httpx/requests.go", "ParseJsonBody", "httpParseJsonBodyCalls")
 	calls("rest/httpx/requests.go", "withJsonBody", "httpWithJsonBodyCalls")
+	// the cache of structValueRequired: its key (tag key + type since a8b007f) and its accesses
+	if fd := s.findFunc(ut, "structValueRequired"); fd != nil {
+		var ds []string
+		ast.Inspect(fd.Body, func(n ast.Node) bool {
+			if x, ok := n.(*ast.AssignStmt); ok {
+				txt := strings.Join(strings.Fields(s.src(x)), " ")
+				if len(x.Lhs) >= 1 && (s.src(x.Lhs[0]) == "cacheKey" || strings.Contains(txt, "structRequiredCache[") || strings.Contains(txt, "implicitValueRequiredStruct(")) {
+					if i := strings.Index(txt, "{ required"); i >= 0 {
+						txt = txt[:i] + "{…}"
+					}
+					ds = append(ds, txt)
+				}
+			}
+			return true
+		})
+		e.stringList("structRequiredCacheUse", "cache key and cache accesses of structValueRequired", ds)
+	} else {
+		e.errors = append(e.errors, "function structValueRequired not found")
+		e.stringList("structRequiredCacheUse", "MISSING", []string{"MISSING"})
+	}
 	// --- encoding.ParseHeaders: scalar or slice
 	ph := s.findFunc("rest/internal/encoding/parser.go", "ParseHeaders")
 	var phIf *ast.IfStmt
